@@ -89,3 +89,59 @@ package executor
 //@   store LimitTransformParameters.Offset
 //@     requires [offset_cleared_after_widening] w && val == 0
 //@     set w = false
+
+// ================================================================ C08: a bucket that straddles a chunk boundary
+//@ prop C08
+// The aggregate iterators carry the partial result of the last bucket of a chunk (prevPoint) into the next chunk. The
+// "this chunk has no value for the column" shortcut only pads nulls; it is taken only when NO partial result is being
+// carried - otherwise the straddling bucket would come out null and the stale partial leak into a later bucket.
+//@ func (*FloatIterator).Next
+//@   requires r != nil && r.prevPoint != nil
+//@   call .IntervalLen
+//@     frame nothing
+//@   call .IsEmpty
+//@     frame nothing
+//@   call .Column
+//@     frame nothing
+//@   call .AppendManyNil
+//@     requires [empty_column_shortcut_only_without_a_carried_partial] r.prevPoint.isNil
+//@ func (*IntegerIterator).Next
+//@   requires r != nil && r.prevPoint != nil
+//@   call .IntervalLen
+//@     frame nothing
+//@   call .IsEmpty
+//@     frame nothing
+//@   call .Column
+//@     frame nothing
+//@   call .AppendManyNil
+//@     requires [empty_column_shortcut_only_without_a_carried_partial] r.prevPoint.isNil
+//@ func (*StringIterator).Next
+//@   requires r != nil && r.prevPoint != nil
+//@   call .IntervalLen
+//@     frame nothing
+//@   call .IsEmpty
+//@     frame nothing
+//@   call .Column
+//@     frame nothing
+//@   call .AppendManyNil
+//@     requires [empty_column_shortcut_only_without_a_carried_partial] r.prevPoint.isNil
+//@ func (*BooleanIterator).Next
+//@   requires r != nil && r.prevPoint != nil
+//@   call .IntervalLen
+//@     frame nothing
+//@   call .IsEmpty
+//@     frame nothing
+//@   call .Column
+//@     frame nothing
+//@   call .AppendManyNil
+//@     requires [empty_column_shortcut_only_without_a_carried_partial] r.prevPoint.isNil
+
+// Rows of a series are buffered by the HTTP sender across chunks while the chunk memory is recycled by the operator
+// that produced it: a string or tag value that leaves a chunk is COPIED out of the chunk's buffer.
+//@ func (*RowsGenerator).GetColValue
+//@   ghost copied bool = false
+//@   call (*RowsGenerator).allocBytes
+//@     set copied = true
+//@     frame nothing
+//@   call copy
+//@     requires [string_copied_out_of_the_chunk] copied && arg0 == newStr && arg1 == oriStr
